@@ -60,7 +60,8 @@ func TestCheck(t *testing.T) {
 		"decided by an interval rule and by porcupine against a per-host version register (non-trivial = at least one read overlapped a refresh).  " +
 		"safe-search stress: 16 readers cycling over 36000 (host, qtype, list) keys whose verdict changes with every version, 6 in-place refreshes per history; " +
 		"after each refresh returned the readers wait at a barrier and every key they touched last is asked once.  " +
-		"rule-list window: 12 readers ask for 6000 first-list keys whose verdict changes with the version while the server holds back every download after the first list; panics recovered; every key touched during the refresh is asked once after it returned")
+		"rule-list window: 12 readers ask for 6000 first-list keys whose verdict changes with the version while the server holds back every download after the first list; panics recovered; every key touched during the refresh is asked once after it returned.  " +
+		"shared cached list: 8+8 goroutines of two profiles that share a cached list (1..6 matching rules of different kinds per probe host) but differ in an exception list, released together per (host, qtype); every verdict compared with the cache-off twin")
 	r.Assume("rule lists, blocked-service lists and safe-search lists carry no client-specific modifiers ($client etc.); custom rules may")
 	r.Assume("ConfigCustom.UpdateTime advances whenever the rules of a profile change (documented meaning of the field); a request that carries an OLDER " +
 		"snapshot than one the storage has already seen may be answered with the newer rules (documented: the cached filter is used unless it is older than the request's UpdateTime)")
@@ -86,9 +87,12 @@ func TestCheck(t *testing.T) {
 	safeSearchStressPhase(r, s)
 	t4 := time.Now()
 	ruleListWindowPhase(r, s)
+	t5 := time.Now()
+	sharedCachedListPhase(r, s)
 	r.Extra("phase_wall_s", map[string]float64{
-		"rule_list_window": time.Since(t4).Seconds(),
-		"sequential":       t1.Sub(t0).Seconds(), "straddle": t2.Sub(t1).Seconds(), "concurrent": t3.Sub(t2).Seconds(),
+		"shared_cached_list": time.Since(t5).Seconds(),
+		"rule_list_window":   t5.Sub(t4).Seconds(),
+		"sequential":         t1.Sub(t0).Seconds(), "straddle": t2.Sub(t1).Seconds(), "concurrent": t3.Sub(t2).Seconds(),
 		"safe_search_stress": t4.Sub(t3).Seconds(),
 	})
 
@@ -116,6 +120,8 @@ func TestCheck(t *testing.T) {
 	r.Require("conc_reads_overlapping_a_refresh", 50)
 	r.Require("conc_reads_after_a_refresh", 200)
 	r.Require("porcupine_ok", 20)
+	r.Require("shared_list_concurrent_verdicts_compared_cached_storage", 60000)
+	r.Require("shared_list_concurrent_verdicts_compared_cache_off_twin", 60000)
 	r.Require("rl_window_refreshes", 8)
 	r.Require("rl_window_reader_calls_between_list1_recompiled_and_refresh_return", 5000)
 	r.Require("rl_window_probes_after_refresh_returned", 2000)
